@@ -46,6 +46,10 @@ def check(ctx: Ctx) -> str:
     from .c08 import r0_fold_failures
 
     r0_fold_failures(ctx, "R5")
+    # ... and a folded value must come back from its repr() as the same object (type included)
+    from .c08 import r3_safe_repr
+
+    r3_safe_repr(ctx, "R6")
     return __doc__ or ""
 
 
